@@ -264,6 +264,7 @@ Proof.
     destruct (validate Subst (SList es ty len mnl mxl) [] v) eqn:EV; [|discriminate].
     destruct v as [| | | | | | | | |l| | | |]; try discriminate.
     destruct (negb (length l =? 0) && forallb is_vell l); [discriminate|].
+    destruct (existsb is_vell (removelast (tl l))); [discriminate|].
     cbn [validate] in EV.
     destruct (check_len_first [] (VList l) (zlen l) len mnl mxl) eqn:EL; [|discriminate].
     cbn [wf] in Hwf. apply andb_true_iff in Hwf as [Hwes Hwty].
